@@ -48,7 +48,8 @@ PROBES = ['ok', 'wrong', 'silent', 'close', 'refuse', 'upgrade-write-fails',
 ENDERS = ['server-close', 'silence', 'drop', 'post-fail', 'client-main',
           'client-in-message', 'client-in-connect', 'client-in-disconnect',
           'client-abort', 'write-dead-then-client', 'client-during-post',
-          'garbage', 'post-fail-polls-ok', 'write-dead-burst-then-drop']
+          'garbage', 'post-fail-polls-ok', 'write-dead-burst-then-drop',
+          'post-response-lost']
 PI, PT = 2, 1
 
 
@@ -221,6 +222,29 @@ def one_cycle(rec, w, V, case, cyc, openb, transport, probe, ender, rng):
         if want_tr == 'polling':
             srv.script['post'] = 'fail-status'
             c.call('send', 'doomed')
+        else:
+            srv.ws.server_close()
+        want_reason = 'transport error'
+    elif ender == 'post-response-lost':
+        # the server receives and processes a POST, but the connection goes
+        # away before its answer: the client must not transmit it again
+        if want_tr == 'polling':
+            srv.script['post'] = 'lost-response'
+            c.call_seq('send', ['once-1', 'once-2'])
+            w.quiesce()
+            w.advance(0.5)
+            srv.script['post'] = 'ok'
+            w.advance(1)
+            seen = [x for po in srv.posts[posts0:]
+                    for x in po['body'].split(gen.SEP)
+                    if x.startswith('4once-')]
+            if len(seen) != len(set(seen)):
+                V('transmitted-twice', 'a POST whose answer was lost was '
+                  'sent again: the server received %r' % (seen,))
+                return False
+            srv.script['post'] = 'refuse'
+            srv.dropped = True
+            srv.pollq.put(None)
         else:
             srv.ws.server_close()
         want_reason = 'transport error'
